@@ -16,6 +16,10 @@ ops   : ("p", k, side, ks)        k-th action the model predicts to change the s
                                   action with required access ROOT|USER and possibly another prob / cost
         ("b", k)                  burn: repeat a cheap action until k%9+1 steps before the step limit
         ("x",)                    reset
+        ("s", j, k, side, ks)     cross-state probe: an action that passes every gate in exactly ONE of the current state and
+                                  the j-th saved state (states saved before a reset included) - executed generatively on the
+                                  saved state first, then (generatively and as a step) in the current state: an answer must
+                                  not leak from one state to the other through anything the environment remembers
         ("v", k)                  query: one of the environment's read-only public methods (render_state / render_obs /
                                   render / render_action to a captured stdout, get_action_mask, get_minimum_hops,
                                   get_score_upper_bound, goal_reached, generate_initial_state,
@@ -113,6 +117,7 @@ class Harness:
         self.max_depth = 0
         self.last_comp = None
         self.probes = {}
+        self.cross = None
 
     # ------------------------------------------------------------ helpers
     def obs2d(self, o):
@@ -272,7 +277,17 @@ class Harness:
         return sig
 
     def reset(self):
-        obs, info = self.env.reset()
+        # Gymnasium's documented reset idioms in turn: reset(), reset(seed=int), reset(options={}), reset(seed=big int)
+        n = self.n_resets = getattr(self, "n_resets", 0) + 1
+        k = n % 4
+        if k == 1:
+            obs, info = self.env.reset()
+        elif k == 2:
+            obs, info = self.env.reset(seed=7919 * n + 3)
+        elif k == 3:
+            obs, info = self.env.reset(options={})
+        else:
+            obs, info = self.env.reset(seed=2**40 + n)
         self.shadow_steps = 0
         self.ledger = set()
         self.mst = self.spec.initial()
@@ -354,6 +369,15 @@ class Harness:
             return self.last_act or self.acts[0]
         if kind == "o":
             return M.Act("noop", (1, 0))
+        if kind == "s":
+            # passes every gate in exactly one of (current state, a saved state)
+            S, mstS = self.saved[op[1] % len(self.saved)]
+            cands = [a for a in self.acts
+                     if (not M.gates(self.spec, mstS, a)) != (not M.gates(self.spec, mst, a))]
+            self.cross = (S, mstS) if cands else None
+            if not cands:
+                return self.choose(("p", op[2]), mst)
+            return cands[op[2] % len(cands)]
         if kind == "q":
             # hand-built variant of a progress / near-miss / flat action: required access ROOT (or USER),
             # sometimes another probability / cost than the scenario's definition
@@ -509,9 +533,45 @@ def run_history(h, ops, on_rec, on_reset=None, both_sides=True, do_gen=True):
     for op in ops:
         k = op[0]
         if k == "x":
+            # a reset is bracketed (every second / third one) by the two things that show what a reset forgets
+            # to clear: before it an action that is evaluated but blocked (nothing is updated after it), after it
+            # an action that passed every gate in the abandoned state and must be blocked again in the initial one
+            n = getattr(h, "n_resets", 0)
+            pre_mst = dict(h.mst)
+            if n % 3 == 0 and any(v[0] for v in h.mst.values()):
+                # evaluated up to the network-level gates (or the chance gate) and refused there
+                pre = []
+                for a in h.acts:
+                    if a.kind not in ("exploit", "service_scan", "os_scan"):
+                        continue
+                    g = M.gates(h.spec, h.mst, a)
+                    if g and g <= {"subnetfw", "hostfw", "pivot"}:
+                        pre.append((a, "lo"))
+                    elif not g and 0.0 < a.prob < 1.0 and not h.mst[a.target][0]:
+                        pre.append((a, "hi"))
+                if pre:
+                    act, side_ = pre[(n * 17 + len(pre)) % len(pre)]
+                    rec = h.exec_step(act, side_, n)
+                    on_rec(h, rec, None)
+                    h.install(rec)
+                    if h.diverged:
+                        return "diverged"
             obs, info = h.reset()
             if on_reset:
                 on_reset(h, obs, info)
+            if n % 2 == 0:
+                stale = [a for a in h.acts if a.kind in ("exploit", "service_scan", "os_scan")
+                         and not M.gates(h.spec, pre_mst, a) and M.gates(h.spec, h.mst, a)]
+                visible = [a for a in stale if "discovery" not in M.gates(h.spec, h.mst, a)]
+                stale = visible or stale
+                if stale:
+                    act = stale[(n * 31 + len(stale)) % len(stale)]
+                    rec = h.exec_step(act, "lo", n)
+                    on_rec(h, rec, None)
+                    h.install(rec)
+                    h.stale_probes = getattr(h, "stale_probes", 0) + 1
+                    if h.diverged:
+                        return "diverged"
             continue
         if k == "v":
             name, what = do_query(h, op[1])
@@ -570,6 +630,11 @@ def run_history(h, ops, on_rec, on_reset=None, both_sides=True, do_gen=True):
                                       f"generative_step({rec.act}) was called on that object (its tensor is unchanged: {rec.purity['arg_unchanged']})")
             continue
         act = h.choose(op)
+        if k == "s" and h.cross is not None:
+            S, mstS = h.cross
+            rec = h.exec_gen(S, mstS, act, op[3], op[4], opname="g")
+            on_rec(h, rec, None)
+            h.cross_probes = getattr(h, "cross_probes", 0) + 1
         side, ks = (op[-2], op[-1]) if k != "o" else ("lo", 0)
         twin = None
         if do_gen:
